@@ -108,3 +108,51 @@ def _lemmas(ctx):
 
 
 LEMMAS = [_lemmas]
+
+
+_REPLAY = {}
+
+
+def native_replay(ctx, o):
+    """History replay / bounded stand-in for the ray-transfer integrators: trace a ray, assign a new voxel map (box) or mask (cylinder) to
+    the SAME object, trace again; the second result is compared with a freshly built object that was given the same map / mask."""
+    if 'RayTransferIntegrator' not in o.name:
+        return None
+    from replaylib.native import run_native
+    code = """
+import numpy as np
+from raysect.optical import World, Ray, Point3D, Vector3D, translate
+from cherab.tools.raytransfer import RayTransferBox, RayTransferCylinder
+def trace(world, origin, direction, bins):
+    ray = Ray(origin=Point3D(*origin), direction=Vector3D(*direction).normalise(), min_wavelength=500., max_wavelength=501., bins=bins)
+    return np.array(ray.trace(world).samples)
+bad = []
+origin, direction = (-1., 0.3, 0.6), (5., 2.0, 0.9)
+vmap = -1 * np.ones((4, 4, 4), dtype=np.int32); vmap[:2, :2, :] = 0; vmap[2:, 2:, :2] = 1; vmap[2, :2, :] = 2
+w1 = World(); b1 = RayTransferBox(4., 4., 4., 4, 4, 4, step=0.01, parent=w1)
+trace(w1, origin, direction, 64)
+b1.voxel_map = vmap
+got = trace(w1, origin, direction, 64)
+w2 = World(); b2 = RayTransferBox(4., 4., 4., 4, 4, 4, step=0.01, parent=w2, voxel_map=vmap)
+want = trace(w2, origin, direction, 64)
+if not np.allclose(got, want, rtol=0, atol=1e-9):
+    bad.append({"object": "RayTransferBox", "history": "trace; voxel_map = merged map with -1 cells; trace", "row_after_history": got[:6].tolist(), "row_fresh_object": want[:6].tolist()})
+mask = np.zeros((3, 4, 3), dtype=bool); mask[1:, :2, 1:] = True
+o2, d2 = (3.0, 0.4, 0.7), (-6., -0.3, 0.5)
+w3 = World(); c1 = RayTransferCylinder(2., 3., 3, 3, radius_inner=0.5, n_polar=4, period=90., step=0.01, parent=w3, transform=translate(0, 0, -0.5))
+trace(w3, o2, d2, 36)
+c1.mask = mask
+got = trace(w3, o2, d2, 36)
+w4 = World(); c2 = RayTransferCylinder(2., 3., 3, 3, radius_inner=0.5, n_polar=4, period=90., step=0.01, parent=w4, transform=translate(0, 0, -0.5), mask=mask)
+want = trace(w4, o2, d2, 36)
+if not np.allclose(got, want, rtol=0, atol=1e-9):
+    bad.append({"object": "RayTransferCylinder", "history": "trace; mask = partial mask; trace", "row_sum_after_history": float(got.sum()), "row_sum_fresh_object": float(want.sum())})
+print(json.dumps({"bad": bad, "nbad": len(bad)}))
+"""
+    if 'h' not in _REPLAY:
+        _REPLAY['h'] = run_native(ctx, code, timeout=300)
+    out = _REPLAY['h']
+    exp = 'the matrix row after re-assigning the voxel map / mask equals the row of a freshly built object with that map / mask'
+    if out and out.get('nbad'):
+        return {'confirmed': True, 'input': out['bad'][0], 'observed': out, 'expected': exp}
+    return {'confirmed': False, 'input': None, 'observed': out, 'expected': exp}
